@@ -39,3 +39,6 @@ Definition store64 (q : Q) : Q := match f64 q with Some x => x | None => q end.
 Example f32_third : f32 (1 # 3) = Some (11184811 # 33554432)%Q. Proof. vm_compute. reflexivity. Qed.
 Example f32_70 : store32 (70000001 # 1000000) = 70%Q /\ store32 (70000003 # 1000000) = 70%Q /\ store32 (70000004 # 1000000) = (9175041 # 131072)%Q. Proof. vm_compute. repeat split. Qed. 
 Example f64_tenth : f64 (1 # 10) = Some (3602879701896397 # 36028797018963968)%Q. Proof. vm_compute. reflexivity. Qed.
+
+(** the constants of the implementation at the time of writing (the harness reads them again on every run) *)
+Definition P32 : params := {| scale := 1000000; tol := (1 # 1000)%Q; store := store32 |}.
